@@ -361,8 +361,8 @@ def shrinkUnknownCuts (env : Env) (varPrd varCns : Core.Ident) (ty : Core.Ty) : 
       let varKeep := if cod then varCns else varPrd
       let varExpand := if cod then varPrd else varCns
       let translatedTy := shrinkTy ty
-      let (clauses, st1) := unknownClauses env varExpand translatedTy decl.xtors st
-      .ok (.switch (shrinkIdentifier varKeep) translatedTy clauses none, st1)
+      let cl := unknownClauses env varExpand translatedTy decl.xtors st
+      .ok (.switch (shrinkIdentifier varKeep) translatedTy cl.1 none, cl.2)
 
 /-- cut.rs: fn lift, the loop `for binding in &typed_free_vars`: one fresh variable per free
     variable, in set order; returns (context, subst) -/
@@ -376,26 +376,32 @@ def liftFresh : List Core.Binding → St → (List Core.Binding × List (Nat × 
 /-- cut.rs: fn lift -/
 def lift (env : Env) (rec : Rec) (statement : Core.FsStmt) : M AxCut.Stmt := fun st =>
   let typedFreeVars := tfvStmt statement []
-  let ((context, subst), st1) := liftFresh typedFreeVars st
-  let (label, st2) := freshIdentifier st1 ("lift_" ++ env.currentLabel ++ "_")
+  let fresh := liftFresh typedFreeVars st
+  let context := fresh.1.1
+  let subst := fresh.1.2
+  let lbl := freshIdentifier fresh.2 ("lift_" ++ env.currentLabel ++ "_")
+  let label := lbl.1
   let context' := shrinkContext env.codata context
-  match rec (substStmt subst statement) st2 with
+  match rec (substStmt subst statement) lbl.2 with
   | .error e => .error e
   | .ok (body, st3) =>
     let st4 : St := { st3 with lifted := ⟨shrinkIdentifier label, context', body⟩ :: st3.lifted }
     let args := shrinkContext env.codata typedFreeVars
     .ok (.call (shrinkIdentifier label) args, st4)
 
+/-- the `matches!` part of the sharing condition of shrink_critical_pairs: the statement is an
+    `exit`, a `call`, or a cut that will become an `invoke` -/
+def isLeafStmt : Core.FsStmt → Bool
+  | .exit _ => true
+  | .call _ _ => true
+  | .cut _ (.var _ _ _) (.xtor _ _ _ _) => true
+  | .cut _ (.xtor _ _ _ _) (.var _ _ _) => true
+  | _ => false
+
 /-- the sharing condition of shrink_critical_pairs: `true` = shrink the expanded statement in
     place (and duplicate it into every clause), `false` = lift it to the top level -/
 def inlineExpand (nXtors : Nat) (statementExpand : Core.FsStmt) : Bool :=
-  nXtors ≤ 1 ||
-  (match statementExpand with
-   | .exit _ => true
-   | .call _ _ => true
-   | .cut _ (.var _ _ _) (.xtor _ _ _ _) => true
-   | .cut _ (.xtor _ _ _ _) (.var _ _ _) => true
-   | _ => false)
+  nXtors ≤ 1 || isLeafStmt statementExpand
 
 /-- the clause list of shrink_critical_pairs -/
 def criticalClauses (env : Env) (varExpand : Core.Ident) (translatedTy : AxCut.Ty)
@@ -409,6 +415,22 @@ def criticalClauses (env : Env) (varExpand : Core.Ident) (translatedTy : AxCut.T
     let body := AxCut.Stmt.letS var translatedTy (shrinkIdentifier x.name) envC next none
     let (rest, st3) := criticalClauses env varExpand translatedTy shrunkStatementExpand xs st2
     (.cons (shrinkIdentifier x.name) envC body rest, st3)
+
+/-- cut.rs: fn shrink_critical_pairs, the `Ty::Decl` branch after the sides have been chosen:
+    `statement_expand` is shrunk in place or lifted, then the clauses are generated, then
+    `statement_keep` is shrunk -/
+def criticalDecl (env : Env) (rec : Rec) (decl : Core.TypeDecl) (name : Core.Ident) (translatedTy : AxCut.Ty)
+    (varKeep : Core.Ident) (statementKeep : Core.FsStmt) (varExpand : Core.Ident)
+    (statementExpand : Core.FsStmt) : M AxCut.Stmt := fun st =>
+  match (if inlineExpand decl.xtors.length statementExpand then rec statementExpand st
+         else lift env rec statementExpand st) with
+  | .error e => .error e
+  | .ok (shrunkStatementExpand, st1) =>
+    let cl := criticalClauses env varExpand translatedTy shrunkStatementExpand decl.xtors st1
+    match rec statementKeep cl.2 with
+    | .error e => .error e
+    | .ok (next, st3) =>
+      .ok (.create (shrinkIdentifier varKeep) (.decl (shrinkIdentifier name)) none cl.1 next none none, st3)
 
 /-- cut.rs: fn shrink_critical_pairs -/
 def shrinkCriticalPairs (env : Env) (rec : Rec) (varPrd : Core.Ident) (statementPrd : Core.FsStmt)
@@ -429,20 +451,8 @@ def shrinkCriticalPairs (env : Env) (rec : Rec) (varPrd : Core.Ident) (statement
     match lookupTypeDeclaration name (if cod then env.codata else env.data) with
     | .error e => .error e
     | .ok decl =>
-      let varKeep := if cod then varCns else varPrd
-      let statementKeep := if cod then statementCns else statementPrd
-      let varExpand := if cod then varPrd else varCns
-      let statementExpand := if cod then statementPrd else statementCns
-      let translatedTy := shrinkTy ty
-      match (if inlineExpand decl.xtors.length statementExpand then rec statementExpand st
-             else lift env rec statementExpand st) with
-      | .error e => .error e
-      | .ok (shrunkStatementExpand, st1) =>
-        let (clauses, st2) := criticalClauses env varExpand translatedTy shrunkStatementExpand decl.xtors st1
-        match rec statementKeep st2 with
-        | .error e => .error e
-        | .ok (next, st3) =>
-          .ok (.create (shrinkIdentifier varKeep) (.decl (shrinkIdentifier name)) none clauses next none none, st3)
+      if cod then criticalDecl env rec decl name (shrinkTy ty) varCns statementCns varPrd statementPrd st
+      else criticalDecl env rec decl name (shrinkTy ty) varPrd statementPrd varCns statementCns st
 
 /-- cut.rs: fn shrink_binop -/
 def shrinkBinop : Core.BinOp → AxCut.BinOp
@@ -589,6 +599,40 @@ mutual
     | .call _ _ => 1
     | .exit _ => 1
 end
+
+mutual
+  /-- number of statement and clause nodes of an AxCut statement -/
+  def axSizeStmt : AxCut.Stmt → Nat
+    | .subst _ n => axSizeStmt n + 1
+    | .call _ _ => 1
+    | .letS _ _ _ _ n _ => axSizeStmt n + 1
+    | .switch _ _ cs _ => axSizeClauses cs + 1
+    | .create _ _ _ cs n _ _ => axSizeClauses cs + axSizeStmt n + 1
+    | .invoke _ _ _ _ => 1
+    | .lit _ _ n _ => axSizeStmt n + 1
+    | .op _ _ _ _ n _ => axSizeStmt n + 1
+    | .print _ _ n _ => axSizeStmt n + 1
+    | .ifc _ _ _ t e => axSizeStmt t + axSizeStmt e + 1
+    | .exit _ => 1
+  def axSizeClauses : AxCut.Clauses → Nat
+    | .nil => 0
+    | .cons _ _ b r => axSizeStmt b + axSizeClauses r + 1
+end
+
+/-- total size of a list of definitions (one node per definition plus its body) -/
+def defsSize : List AxCut.Def → Nat
+  | [] => 0
+  | d :: ds => axSizeStmt d.body + 1 + defsSize ds
+
+/-- size of a focused Core program, counted the same way -/
+def fsDefsSize : List Core.FsDef → Nat
+  | [] => 0
+  | d :: ds => sizeStmt d.body + 1 + fsDefsSize ds
+
+/-- the largest number of xtors of a declared type -/
+def maxXtors : List Core.TypeDecl → Nat
+  | [] => 0
+  | d :: ds => max d.xtors.length (maxXtors ds)
 
 /-! ## def.rs, program.rs -/
 
